@@ -165,6 +165,20 @@ static void exec_op(op_t *op) {
 		if (op->d > 0) dispatch_io_set_interval(c->io, (uint64_t)op->d * 1000, op->e ? DISPATCH_IO_STRICT_INTERVAL : 0);
 		logev(EV_RET, op->id, ch, 0);
 		break;
+	case K_CONVREAD:          // convenience API: one handler invocation with everything that was read (channel type 2: a bare descriptor)
+		atomic_fetch_add(&pending, 1);
+		logev(EV_CALL, op->id, ch, op->c);
+		dispatch_read(c->fd_chan, op->c < 0 ? SIZE_MAX : (size_t)op->c, hq, ^(dispatch_data_t data, int error) { read_handler(op, ch, true, data, error); });
+		logev(EV_RET, op->id, ch, 0);
+		break;
+	case K_CONVWRITE: {
+		atomic_fetch_add(&pending, 1);
+		dispatch_data_t d = make_wdata(op);
+		logev(EV_CALL, op->id, ch, op->c);
+		dispatch_write(c->fd_chan, d, hq, ^(dispatch_data_t data, int error) { write_handler(op, ch, true, data, error); });
+		logev(EV_RET, op->id, ch, 0);
+		dispatch_release(d);
+		break; }
 	case K_SLEEP: { struct timespec ts = { op->a / 1000000, (op->a % 1000000) * 1000 }; nanosleep(&ts, 0); break; }
 	case K_WORK: { volatile long n = op->a; while (n-- > 0) { } break; }
 	default: break;
@@ -278,6 +292,7 @@ static int create_channels(void) {
 		}
 		int fd = c->fd_chan;
 		inject_fd[n_inject_fd++] = fd;
+		if (c->type == 2) continue;        // convenience descriptor: dispatch_read / dispatch_write create their own channel
 		c->io = dispatch_io_create(c->type ? DISPATCH_IO_RANDOM : DISPATCH_IO_STREAM, fd, hq, ^(int error) {
 			logev(EV_CANCELH, ci, error, atomic_load(&pending));
 			close(fd);
@@ -300,7 +315,7 @@ static void *client(void *arg) {
 	return NULL;
 }
 static void *coordinator(void *arg) {
-	(void)arg; my_tid = 63;
+	(void)arg; my_tid = 63; no_inject = 1;      // the harness's own reads (draining what convenience reads left) are never perturbed
 	pthread_t th[MAXTHR], pt[MAXCH];
 	atomic_store(&S->future_stimulus, 1);       // peers are harness-known future stimuli until they have finished
 	for (long i = 0; i < MAXCH; i++) if (CH[i].used && CH[i].transport != 2) pthread_create(&pt[i], 0, peer_thread, (void *)i);
@@ -312,14 +327,26 @@ static void *coordinator(void *arg) {
 	atomic_store(&S->future_stimulus, 0);
 	int p; while ((p = atomic_load(&pending)) > 0) fwait(&pending, p);          // every operation saw done (a lost completion is a stuck witness)
 	for (int i = 0; i < MAXCH; i++) if (CH[i].used) { chan_t *c = &CH[i];
+		// convenience descriptors: every handler has been invoked, so the descriptor is the application's again (dispatch/io.h); closing it is the peer's EOF
+		if (c->type == 2) { logev(EV_CALL, -10 - i, i, 0);
+			if (c->dir == 0) {       // a convenience read completes on EAGAIN once it has data: what the calls did not consume must still be in the descriptor, in stream order
+				uint64_t pos = 0, rest = 0; int bad = 0; static uint8_t rb[65536];
+				for (int t = 0; t < nthreads; t++) for (int k = 0; k < CTX[t].n; k++) if (CTX[t].ops[k]->kind == K_CONVREAD && CTX[t].ops[k]->a == i) pos += CTX[t].ops[k]->got;
+				int fl = fcntl(c->fd_chan, F_GETFL); fcntl(c->fd_chan, F_SETFL, fl & ~O_NONBLOCK);
+				for (;;) { ssize_t r = read(c->fd_chan, rb, sizeof rb); if (r <= 0) break;
+					for (ssize_t j = 0; j < r && !bad; j++) if (rb[j] != rbyte(i, pos + rest + (uint64_t)j)) { logev(EV_CHKFAIL, -1, 36, (int64_t)(pos + rest + (uint64_t)j)); bad = 1; }
+					rest += (uint64_t)r; }
+				logev(EV_VAL, -20 - i, 14, (int64_t)rest);
+			}
+			close(c->fd_chan); atomic_store(&c->cleanup_runs, 1); logev(EV_RET, -10 - i, i, 0); continue; }
 		logev(EV_CALL, -10 - i, i, 0); dispatch_io_close(c->io, 0); dispatch_release(c->io); logev(EV_RET, -10 - i, i, 0);
 		int v; while ((v = atomic_load(&c->cleanup_runs)) < 1) fwait(&c->cleanup_runs, v); }
 	for (int i = 0; i < MAXCH; i++) if (CH[i].used && CH[i].transport != 2 && CH[i].dir == 1) pthread_join(pt[i], 0);    // readers see EOF once the cleanup handler closed the fd
 	// write channels: what reached the peer must be the concatenation, in submission order, of what each operation reports as written
-	for (int i = 0; i < MAXCH; i++) if (CH[i].used && CH[i].dir == 1 && CH[i].type == 0) {
+	for (int i = 0; i < MAXCH; i++) if (CH[i].used && CH[i].dir == 1 && CH[i].type != 1) {
 		chan_t *c = &CH[i]; size_t off = 0; int bad = 0; uint64_t claimed = 0;
 		for (int t = 0; t < nthreads && !bad; t++) for (int k = 0; k < CTX[t].n && !bad; k++) { op_t *op = CTX[t].ops[k];
-			if (op->kind != K_WRITE || op->a != i) continue;
+			if ((op->kind != K_WRITE && op->kind != K_CONVWRITE) || op->a != i) continue;
 			claimed += op->got;
 			if (off + op->got > c->sink_len || memcmp(c->sink + off, op->wdata, op->got)) { logev(EV_CHKFAIL, op->id, 34, (int64_t)off); bad = 1; }
 			off += op->got; }
@@ -328,10 +355,10 @@ static void *coordinator(void *arg) {
 		logev(EV_VAL, -20 - i, 11, (int64_t)claimed);
 	}
 	// stream read channels: the bytes given to the operations, concatenated in submission order, are the stream the peer wrote, from its start
-	for (int i = 0; i < MAXCH; i++) if (CH[i].used && CH[i].dir == 0 && CH[i].type == 0) {
+	for (int i = 0; i < MAXCH; i++) if (CH[i].used && CH[i].dir == 0 && CH[i].type != 1) {
 		uint64_t pos = 0; int bad = 0;
 		for (int t = 0; t < nthreads && !bad; t++) for (int k = 0; k < CTX[t].n && !bad; k++) { op_t *op = CTX[t].ops[k];
-			if (op->kind != K_READ || op->a != i) continue;
+			if ((op->kind != K_READ && op->kind != K_CONVREAD) || op->a != i) continue;
 			for (uint64_t j = 0; j < op->got; j++) if (op->rbuf[j] != rbyte(i, pos + j)) { logev(EV_CHKFAIL, op->id, 31, (int64_t)(pos + j)); bad = 1; break; }
 			pos += op->got; }
 	}
